@@ -170,6 +170,65 @@ func (m *BinaryModel) ResolveDependencies() {
 	for _, packet := range m.Packets {
 		m.resolveFields(packet.Fields)
 	}
+	m.checkRecursion()
+}
+
+// checkRecursion reports packets that contain themselves, directly or through other packets:
+// such a message has no finite encoding and the generators recurse over it without end.
+func (m *BinaryModel) checkRecursion() {
+	const (
+		white = iota
+		grey
+		black
+	)
+	color := make(map[*Packet]int)
+	reported := false
+	var visit func(p *Packet, fields []*Field)
+	visit = func(p *Packet, fields []*Field) {
+		for _, field := range fields {
+			var next []*Packet
+			switch c := field.Attr.(type) {
+			case *ObjectFieldAttribute:
+				if c.RefPacket != nil {
+					if c.IsIner {
+						visit(p, c.RefPacket.Fields)
+					} else {
+						next = append(next, c.RefPacket)
+					}
+				}
+			case *MatchFieldAttribute:
+				for _, pair := range c.MatchPairs {
+					if q, ok := m.PacketsMap[pair.Value]; ok {
+						next = append(next, q)
+					}
+				}
+			}
+			for _, q := range next {
+				switch color[q] {
+				case white:
+					color[q] = grey
+					visit(q, q.Fields)
+					color[q] = black
+				case grey:
+					if !reported {
+						m.AddSyntaxError(&SyntaxError{
+							Line:   field.Line,
+							Column: field.Column,
+							Msg:    "Recursive packet reference: field " + field.Name + " of packet " + p.Name + " leads back to packet " + q.Name,
+						})
+						reported = true
+					}
+				}
+			}
+		}
+	}
+	for _, p := range m.Packets {
+		if color[p] == white {
+			color[p] = grey
+			visit(p, p.Fields)
+			color[p] = black
+		}
+	}
 }
 
 // resolveFields resolves packet references of fields, inline objects included, and checks that
